@@ -224,30 +224,36 @@ def mexprInstances (w : World) (β : Env) (v : String) (paths : List Path) (ms :
         (matchM p t m.tree m.binds).map fun bs =>
           (v, Bind.path p) :: (bs.map fun (x, q) => (x, Bind.path q)) ++ β
 
+/-- SMT atom: instantiate the variables by the strings they denote, evaluate by the SMT-LIB oracle model -/
+def evalSmt (w : World) (β : Env) (t : TermV) : TV :=
+  match toTerm (w.strOf β) t with
+  | none => none
+  | some term => match Smt.eval term with
+    | some (.bool b) => some b
+    | _ => none
+
+/-- `count(tree, needle, num)` on a closed tree -/
+def evalCount (w : World) (β : Env) (tv needle : String) (num : Arg) : TV :=
+  match β.get tv with
+  | some (.path p) =>
+    match w.root.get p with
+    | none => none
+    | some sub =>
+      let occ := (sub.paths.filter fun qu => qu.2.sym == needle).length
+      match num with
+      | .str s => (s.toInt?).map fun target => SemPreds.countVerdict occ target
+      | .var nv => match β.get nv with
+        | some (.num n) => some (SemPreds.countVerdict occ n)
+        | some (.path q) => ((w.root.get q).bind fun t => (t.yieldOpen w.isNT).toInt?).map fun target =>
+            SemPreds.countVerdict occ target
+        | none => none
+  | _ => none
+
 mutual
 def evalRef (w : World) : Env → Fm → TV
-  | β, .smt t =>
-    match toTerm (w.strOf β) t with
-    | none => none
-    | some term => match Smt.eval term with
-      | some (.bool b) => some b
-      | _ => none
+  | β, .smt t => evalSmt w β t
   | β, .pred name args => evalPred w β name args
-  | β, .count tv needle num =>
-    match β.get tv with
-    | some (.path p) =>
-      match w.root.get p with
-      | none => none
-      | some sub =>
-        let occ := (sub.paths.filter fun qu => qu.2.sym == needle).length
-        match num with
-        | .str s => (s.toInt?).map fun target => SemPreds.countVerdict occ target
-        | .var nv => match β.get nv with
-          | some (.num n) => some (SemPreds.countVerdict occ n)
-          | some (.path q) => ((w.root.get q).bind fun t => (t.yieldOpen w.isNT).toInt?).map fun target =>
-              SemPreds.countVerdict occ target
-          | none => none
-    | _ => none
+  | β, .count tv needle num => evalCount w β tv needle num
   | β, .neg f => tvNot (evalRef w β f)
   | β, .conj fs => evalAll w β fs
   | β, .disj fs => evalAny w β fs
